@@ -336,19 +336,29 @@ def run_query(pid, q, keep=False):
         r["replays"] = []
         gbv = os.path.join(wd, "v.gb")
         rc, txt, _ = goto_build(q, wd, ["-DVLOG=1"], gbv)
-        seen = set()
-        for fx in r["failed"][:6]:
-            key = fx["property"]
-            cmdt = cbmc_cmd(q, gbv, trace=True) + ["--property", fx["property"]]
-            rc, out, err, dtt = run(cmdt, max(q.timeout, 300), q.mem_gb, cwd=wd)
-            pt = parse_cbmc(out)
+        seen = {}
+        ngroups = 0
+        for fx in r["failed"]:
+            if fx["where"] in seen:
+                fx["replay"] = seen[fx["where"]]
+                continue
+            ngroups += 1
+            if ngroups > 4:
+                continue
             tr = None
-            for x in pt["results"]:
-                if x.get("trace"):
-                    tr = x["trace"]
+            for extra in (["--property", fx["property"]], []):
+                cmdt = cbmc_cmd(q, gbv, trace=True) + extra
+                rc, out, err, dtt = run(cmdt, max(q.timeout, 300), q.mem_gb, cwd=wd)
+                pt = parse_cbmc(out)
+                for x in pt["results"]:
+                    if x.get("trace"):
+                        tr = x["trace"]
+                        break
+                if tr is not None:
                     break
             if tr is None:
                 fx["replay"] = {"reproduced": None, "text": "no trace obtained (rc=%s %s)" % (rc, pt["error"])}
+                seen[fx["where"]] = fx["replay"]
                 continue
             vals = vlog_from_trace(tr)
             h = hashlib.sha1(json.dumps(vals).encode()).hexdigest()[:10]
@@ -364,6 +374,7 @@ def run_query(pid, q, keep=False):
                            "description": fx["description"], "where": fx["where"],
                            "values": vals, "native_reproduced": rep, "native_output": text[-1500:]}, f, indent=1)
             fx["replay"] = {"path": rpath, "reproduced": rep, "text": text[-600:], "native_rc": nrc}
+            seen[fx["where"]] = fx["replay"]
     r["total_wall_s"] = round(time.time() - t0, 1)
     if not keep:
         shutil.rmtree(wd, ignore_errors=True)
@@ -445,6 +456,7 @@ def cmd_check(pid, tier, only=None, keep=False, jobs=None):
             continue
         # FAIL
         any_unknown = False
+        shown = set()
         for fx in r["failed"]:
             k = match_known(kf, pid, r["query"], fx)
             if k is not None:
@@ -455,6 +467,9 @@ def cmd_check(pid, tier, only=None, keep=False, jobs=None):
             rp = fx.get("replay")
             if rp is None:
                 continue
+            if fx["where"] in shown:
+                continue
+            shown.add(fx["where"])
             builtin = ".assertion." not in fx["property"]
             solver_only = (rp.get("path") and ((rp.get("reproduced") is None and not qs_native_ok(qs, r["query"])) or
                                                (builtin and rp.get("reproduced") is False and rp.get("native_rc") == 0)))
